@@ -369,12 +369,14 @@ def verdictOf (toks : List String) (reqs : List Req) (skew junk : Bool) (extra :
     let crashAborted := reqs.zipIdx.any fun (r, j) =>
       r.kind == "P" && r.gen < lastGen && r.args.getD 1 "" == "t" && r.args.getD 2 "" == pid &&
       !((reqs.drop (j + 1)).any fun e => e.gen == r.gen && e.kind == "E" && e.acked && e.args.head? == some pid)
-    -- the two confirmed defects get their stable key only for the clauses they explain
-    if skew && ["uncommitted-txn-visible", "aborted-txn-visible", "committed-txn-hidden", "acked-produce-hidden-from-read-committed",
+    -- stable keys of the three defects this check found, each only for the clauses it explains. The open one (crash-aborted
+    -- transaction without marker) is decided from the requests alone and goes first; the two repaired ones are classes of
+    -- crash images (torn append visible in the image / torn state-log tail in the lineage) and are plain violations now.
+    if crashAborted && ["uncommitted-txn-visible", "aborted-txn-visible", "committed-txn-hidden"].contains kind then
+      "0:crash-aborted-txn-has-no-marker"
+    else if skew && ["uncommitted-txn-visible", "aborted-txn-visible", "committed-txn-hidden", "acked-produce-hidden-from-read-committed",
                 "close-restart-differs", "lso-not-at-open-transaction"].contains kind then "0:index-segment-skew-after-torn-append"
     else if junk && kind == "acked-commit-lost" then "0:state-log-torn-tail-kept"
-    else if crashAborted && ["uncommitted-txn-visible", "aborted-txn-visible", "committed-txn-hidden"].contains kind then
-      "0:crash-aborted-txn-has-no-marker"
     else "0:" ++ kind
 
 /-- model tokens followed by the implementation's unmodelled tokens (`d:` `x:`). -/
